@@ -11,8 +11,15 @@ import Swat4.Gen.Facts
 * `internal/core/usecases/listservers/listservers.go` + `servers.Filter` — the selection
 
 Strings are `Bytes`.  The field whitelist, the `Info` schema and the status members come from the
-generated `Swat4.Facts`.  There is no `panic` outcome in this file: the partial operations of the Go
-code (listed at `Swat4.C03.parse_total`) are all guarded, and the model is written in the guarded form.
+generated `Swat4.Facts`.
+
+The parser is modelled twice.  The first form (`scanFilter`, `parse`, `parseValue`, `newFromString`) is
+total and written with `takeWhile`/`dropWhile`; it is what the driver runs and what the semantic
+theorems of C03 talk about.  The second form (section "checked", `scanFilterChecked`, `parseChecked`,
+`parseValueChecked`, `newFromStringChecked`) mirrors the Go code expression by expression: every index
+and slice expression is a checked operation on the string it is applied to in the source, with the
+index computed the way the source computes it, and failure is the outcome `panic`.
+`Swat4.C03.filter_parse_never_panics` proves the two forms equal on every byte string.
 -/
 namespace Swat4.Filter
 open Swat4
@@ -292,5 +299,155 @@ def repoFilter (recs : List Record) (after : FTime) (required : Nat) : List Reco
 /-- `listservers.UseCase.Execute`: `ActiveAfter(now − recentness)`, `WithStatus(status)`, then `query.Match(&info)` -/
 def listServers (recs : List Record) (now liveness : Int) (required : Nat) (q : List Filter) : List Record :=
   (repoFilter recs (.at (now - liveness)) required).filter fun r => queryMatch q r.info
+
+/-! ## checked: the parser with every Go index / slice expression explicit
+
+Indices are `Int` (Go `int`): a negative index panics like one beyond the length.  Slices of a
+`string` are bounded by `len`; slices of `filterBytes := []byte(filter)` are bounded by `cap ≥ len`, the
+model uses the stronger bound `len` (it panics whenever Go would, possibly more often). -/
+
+/-- result of a modelled Go function: a value, an error, a run-time panic (index / slice out of range),
+or fuel exhaustion of a fuelled loop -/
+inductive Chk (α : Type) where
+  | ok (a : α)
+  | err (e : ParseErr)
+  | panic
+  | hang
+  deriving DecidableEq, Repr
+
+namespace Chk
+@[inline] def bind {α β : Type} : Chk α → (α → Chk β) → Chk β
+  | .ok a, f => f a
+  | .err e, _ => .err e
+  | .panic, _ => .panic
+  | .hang, _ => .hang
+
+instance : Monad Chk where
+  pure := .ok
+  bind := Chk.bind
+
+/-- a Go `(T, error)` result that cannot panic -/
+def ofExcept {α : Type} : Except ParseErr α → Chk α
+  | .ok a => .ok a
+  | .error e => .err e
+end Chk
+
+/-- Go `s[i]`: panics unless `0 ≤ i < len(s)` -/
+def goIdx (s : Bytes) (i : Int) : Chk UInt8 :=
+  if 0 ≤ i then (match s[i.toNat]? with
+    | some b => .ok b
+    | none => .panic)
+  else .panic
+
+/-- Go `s[lo:hi]`: panics unless `0 ≤ lo ≤ hi ≤ len(s)` -/
+def goSlice (s : Bytes) (lo hi : Int) : Chk Bytes :=
+  if 0 ≤ lo ∧ lo ≤ hi ∧ hi ≤ (s.length : Int) then .ok ((s.take hi.toNat).drop lo.toNat) else .panic
+
+/-- Go `s[:hi]` -/
+def goSliceTo (s : Bytes) (hi : Int) : Chk Bytes := goSlice s 0 hi
+/-- Go `s[lo:]` -/
+def goSliceFrom (s : Bytes) (lo : Int) : Chk Bytes := goSlice s lo s.length
+
+/-- `strings.Index(s, sep)`: the byte index of the first occurrence of `sep` in `s`, `-1` if there is none -/
+def stringsIndex (sep : Bytes) : Bytes → Int
+  | [] => if sep.isEmpty then 0 else -1
+  | b :: r =>
+    if sep.isPrefixOf (b :: r) then 0
+    else
+      let k := stringsIndex sep r
+      if k < 0 then -1 else k + 1
+
+/-- `scanFilter`, as written:
+```go
+i := strings.Index(s, " and ")
+if i == -1 { return s, "" }
+return s[:i], s[i+5:]
+```
+the index is computed on `s` and both slices are taken of `s` -/
+def scanFilterChecked (s : Bytes) : Chk (Bytes × Bytes) :=
+  let i := stringsIndex andSep s
+  if i = -1 then .ok (s, [])
+  else do
+    let a ← goSliceTo s i
+    let b ← goSliceFrom s (i + 5)
+    pure (a, b)
+
+/-- the three stages of `filter.Parse` -/
+inductive Stage where
+  | name | op | value
+  deriving DecidableEq, Repr
+
+/-- the local variables of `filter.Parse` -/
+structure PState where
+  i : Int
+  j : Int
+  stage : Stage
+  fieldName : Bytes
+  op : Bytes
+  deriving DecidableEq, Repr
+
+/-- the body of `for _, char := range filterBytes { … j++ }` -/
+def parseStep (filterBytes : Bytes) (st : PState) (char : UInt8) : Chk PState :=
+  if isOpByte char then
+    if st.stage = .name then do
+      let fieldName ← goSlice filterBytes st.i st.j     -- string(filterBytes[i:j])
+      pure { st with fieldName := fieldName, stage := .op, i := st.j, j := st.j + 1 }
+    else pure { st with j := st.j + 1 }
+  else if st.stage = .op then do
+    let op ← goSlice filterBytes st.i st.j              -- string(filterBytes[i:j])
+    pure { st with op := op, stage := .value, i := st.j, j := st.j + 1 }
+  else pure { st with j := st.j + 1 }
+
+/-- `for _, char := range filterBytes` (the range expression is evaluated once; no index expression) -/
+def parseLoop (filterBytes : Bytes) : List UInt8 → PState → Chk PState
+  | [], st => .ok st
+  | char :: rest, st => do
+    let st' ← parseStep filterBytes st char
+    parseLoop filterBytes rest st'
+
+/-- `parseRawFilterValue`, with the short-circuit `&&` chain
+`len(rawVal) > 2 && rawVal[0] == '\'' && rawVal[len(rawVal)-1] == '\''` and `rawVal[1 : len(rawVal)-1]` explicit -/
+def parseValueChecked (rawVal : Bytes) : Chk FVal :=
+  match atoi rawVal with
+  | some n => .ok (.int n)
+  | none => do
+    let quoted : Bool ←
+      (if rawVal.length > 2 then do
+        let b0 ← goIdx rawVal 0
+        if b0 == 0x27 then do
+          let bl ← goIdx rawVal ((rawVal.length : Int) - 1)
+          pure (bl == 0x27)
+        else pure false
+      else pure false)
+    if quoted then do
+      let s ← goSlice rawVal 1 ((rawVal.length : Int) - 1)
+      pure (.str s)
+    else if isQueryField rawVal then pure (.fld rawVal)
+    else .err .value
+
+/-- `filter.Parse`, as written: the loop, the format check, `filterBytes[i:]`, `New` -/
+def parseChecked (filter : Bytes) : Chk Filter := do
+  let st ← parseLoop filter filter ⟨0, 0, .name, [], []⟩
+  if st.fieldName.isEmpty || st.stage != .value then .err .format
+  else do
+    let rawVal ← goSliceFrom filter st.i                 -- string(filterBytes[i:])
+    let v ← parseValueChecked rawVal
+    Chk.ofExcept (newFilter st.fieldName st.op v)
+
+/-- the loop of `NewFromString`, scanning and parsing interleaved as in the source (a parse error returns
+before the rest is scanned).  Every round consumes at least one byte; `fuel = len + 1` is never exhausted. -/
+def newFromStringLoop : Nat → Bytes → List Filter → Chk (List Filter)
+  | 0, _, _ => .hang
+  | fuel + 1, unscanned, filters =>
+    if unscanned.length > 0 then do
+      let (rawFilter, unscanned') ← scanFilterChecked unscanned
+      let parsed ← parseChecked rawFilter
+      newFromStringLoop fuel unscanned' (filters ++ [parsed])
+    else .ok filters
+
+/-- `query.NewFromString` followed by `query.New` -/
+def newFromStringChecked (query : Bytes) : Chk (List Filter) := do
+  let filters ← newFromStringLoop (query.length + 1) query []
+  if filters.length = 0 then .err .empty else .ok filters
 
 end Swat4.Filter
